@@ -15,7 +15,7 @@ void harness(void){
   size_t n=0; double s=0; for(size_t i=HP_N;i>0;i--) if(!MISS(i-1)){ s+=Y[i-1]; n++; }
   double mean=s/n, ssres=0, sstot=0, sabs=0, syi=0, sxi=0;
   for(size_t i=HP_N;i>0;i--) if(!MISS(i-1)){ double e=P[i-1]-Y[i-1]; ssres+=e*e; sstot+=(Y[i-1]-mean)*(Y[i-1]-mean); sabs+= e<0?-e:e; syi+=P[i-1]*(Y[i-1]-mean); sxi+=Y[i-1]*(Y[i-1]-mean); }
-  ASSUME(sstot>=1e-6);                       /* non-constant truth */
+  ASSUME(sstot>=1e-12);                      /* non-constant truth */
   double r2=R2(yt,yp), mse=MSE(yt,yp), rmse=RMSE(yt,yp), mae=MAE(yt,yp), bias=BIAS(yt,yp);
   CHECK_EQ(r2*sstot, sstot-ssres, "R2 = 1 - RSS/TSS over the non-missing truths");
   CHECK_EQ(mse*n, ssres, "MSE = RSS/n");
